@@ -5,7 +5,7 @@ VARIABLES cfg, done
 Sizes == {0, 1, 20, 32, 55, 56, 64, 4096, 65536}      \* 20, 32: content as long as a SHA-1 / SHA-256 digest is content like any other
 Cts == {"data", "spc", "other", "longoid"}
 Keys == {"k1", "k3072", "k4096"}
-Issuers == {"i1", "multi", "long", "ca", "sig384", "sigpss"}
+Issuers == {"i1", "multi", "long", "ca", "sig384", "sigpss", "selfca", "kuca", "kuenc", "noext"}    \* selfca ...: extensions of the signing certificate (self-signed CA, key usages, none)
 Serials == {"b1", "7f", "80", "00ff", "big"}
 (* the content of a non-data type is DER: one OCTET STRING, one complete SEQUENCE, or two SEQUENCEs back to back (the shape of *)
 (* SpcIndirectDataContent's body); the producer must encapsulate all of them the same way                                      *)
